@@ -1519,6 +1519,31 @@ def _argminmax(which):
         ctx = fr.ctx
         if axis is not None:
             dim = axis
+        if x.rank > 1 and dim is not None:
+            # arg-extremum along one dimension of a tensor: per slice, the first index of an extremal element
+            # (assumed relation, as for vectors; torch and numpy both return the first one)
+            d = norm_dim(dim, x.rank)
+            rest = [q for q in range(x.rank) if q != d]
+            s = x.snapshot()
+            n = x.shape[d]
+            ctx.may_raise(n <= 0, 'RuntimeError' if x.lib == 'torch' else 'ValueError')
+            nm = O.fresh_name('arg' + which)
+            fa = z3.Function(nm, *([z3.IntSort()] * len(rest)), z3.IntSort())
+            better = (lambda u, v: u < v) if which == 'min' else (lambda u, v: u > v)
+            rshape = [x.shape[q] for q in rest]
+
+            def full(ri, k):
+                idx = list(ri)
+                idx.insert(d, k)
+                return s(*idx)
+
+            def A(*ri):
+                return fa(*[O.to_z3(v) for v in ri])
+            ctx.assume(O.forall_hyp(rshape, lambda *ri: And(0 <= A(*ri), A(*ri) < n)))
+            ctx.assume(O.forall_hyp(rshape + [n], lambda *a_: And(Not(better(full(a_[:-1], a_[-1]), full(a_[:-1], A(*a_[:-1])))),
+                                                                   Implies(a_[-1] < A(*a_[:-1]), better(full(a_[:-1], A(*a_[:-1])), full(a_[:-1], a_[-1]))))))
+            ctx.trusted.add('axiom: arg%s along a dimension returns, per slice, the first index of an extremal element' % which)
+            return Tn.fresh(rshape, lambda *ri: A(*ri), 'int', lib=x.lib)
         if x.rank != 1 or (dim is not None and norm_dim(dim, 1) != 0):
             raise Unsupported("arg%s of a tensor of rank %d" % (which, x.rank))
         s = x.snapshot()
